@@ -392,6 +392,42 @@ func c06(r *engine.Report, p *engine.Program) {
 		r.Check("R6-single-writer", "Netceptor."+x.field+": writers", token.NoPos, len(bad) == 0,
 			fmt.Sprintf("%d store(s) outside the constructor, all in {%s}", n, x.allow), "written in "+strings.Join(bad, ", "))
 	}
+	// R7 the picture of an origin is never forgotten: no entry of knownNodeInfo is deleted (a
+	// delayed older update arriving afterwards would be accepted as first contact)
+	{
+		var dels []string
+		for _, a := range p.FieldAccesses(kni) {
+			if a.Kind == engine.AccMapDelete && !engine.IsMock(a.Fn) {
+				dels = append(dels, engine.FuncName(a.Fn)+" at "+p.Pos(a.Instr.Pos()))
+			}
+		}
+		r.Check("R7-no-forget", "Netceptor.knownNodeInfo: deletions", token.NoPos, len(dels) == 0,
+			"no function deletes an entry of knownNodeInfo: the newest epoch/sequence accepted from an origin is remembered for the life of the process",
+			"the stored epoch/sequence of an origin is deleted in "+strings.Join(dels, ", ")+": an older update arriving afterwards is accepted as first contact and relayed")
+	}
+	// R7 test and update of the stored epoch/sequence form one knownNodeLock write section
+	{
+		var reads, writes []ssa.Instruction
+		for _, a := range engine.FieldAccessesIn(hru, kni) {
+			switch a.Kind {
+			case engine.AccMapLookup:
+				reads = append(reads, a.Instr)
+			case engine.AccMapUpdate:
+				writes = append(writes, a.Instr)
+			}
+		}
+		for _, fn := range []string{"Epoch", "Sequence"} {
+			for _, a := range engine.FieldAccessesIn(hru, fld("nodeInfo", fn)) {
+				if a.Kind == engine.AccStore {
+					writes = append(writes, a.Instr)
+				}
+			}
+		}
+		ok, why := atomicSection(p, hru, knl, reads, writes)
+		r.Check("R7-atomic", "handleRoutingUpdate: freshness test + stored epoch/sequence update in one knownNodeLock write section", hru.Pos(), ok,
+			fmt.Sprintf("%d lookup(s) and %d update(s) of knownNodeInfo all run under the knownNodeLock write lock and no path between a lookup and an update releases it", len(reads), len(writes)),
+			why+" — two updates of one origin handled by two connection goroutines can both pass the test and the older one can be stored last")
+	}
 	guardedBy(r, p, "R6-guarded-by", fld("Netceptor", "sequence"), fld("Netceptor", "sequenceLock"), nil)
 	guardedBy(r, p, "R6-guarded-by", seen, seenLock, nil)
 	guardedBy(r, p, "R6-guarded-by", kni, knl, nil)
